@@ -609,3 +609,48 @@ func (c *Conn) BeginRead() error {
 
 // EndRead ends the read transaction started by BeginRead.
 func (c *Conn) EndRead() { c.endRead() }
+
+// SwitchToRollback runs what PRAGMA journal_mode=DELETE issues on a WAL
+// database: under the EXCLUSIVE lock the log is checkpointed and the -wal and
+// -shm files are removed (sqlite3PagerCloseWal), then a rollback-journal
+// transaction rewrites page 1 with the legacy read/write version.
+func (c *Conn) SwitchToRollback(tx Tx) (TxResult, error) {
+	if err := c.OpenWAL(); err != nil {
+		return TxResult{Image: c.DB.Img}, err
+	}
+	c.syncWithLiteFS()
+	if err := c.LockBusy(LockExclusive); err != nil {
+		return TxResult{Image: c.DB.Img}, err
+	}
+	if _, err := c.Checkpoint(CkptTruncate); err != nil {
+		_ = c.Unlock(LockShared)
+		return TxResult{Image: c.DB.Img}, err
+	}
+	if c.DB.Wal.MxFrame != c.DB.Wal.NBackfill {
+		_ = c.Unlock(LockShared)
+		return TxResult{Image: c.DB.Img}, ErrBusy
+	}
+	c.op("close shm")
+	_ = c.shmf.Close()
+	c.shmf = nil
+	c.op("unlink shm")
+	_ = c.M.Remove(c.shmName())
+	c.op("close wal")
+	_ = c.walf.Close()
+	c.walf = nil
+	c.op("unlink wal")
+	if err := c.M.Remove(c.walName()); err != nil {
+		return TxResult{Image: c.DB.Img}, opErr("unlink wal", err)
+	}
+	c.DB.Wal = WalIndex{}
+	c.readSlot = -1
+	_ = c.Unlock(LockShared)
+	_ = c.Unlock(LockNone)
+	c.DB.pendingMode = ref.ModeRollback
+	defer func() { c.DB.pendingMode = 0 }()
+	saved := c.JournalMode
+	c.JournalMode = Delete
+	defer func() { c.JournalMode = saved }()
+	tx.Rollback, tx.NoWrite = false, false
+	return c.ExecRollbackTx(tx)
+}
